@@ -330,3 +330,165 @@ theorem specValOcc_present (s : Schema) (d : QueryDoc) (hft : Gql.Spec.ClosedFie
       (fun h => by cases h) o ho hot
 
 end Gql.Validate
+
+namespace Gql.Validate
+open Gql
+
+/-- the demanded link exists (is not nil) -/
+def Demand.Present (s : Schema) (d : QueryDoc) : Demand → Prop
+  | .field f parent => parent.isSome ∧ (parent.bind (Spec.fieldDefOn · f.name)).isSome
+  | .spread f => (Spec.fragByName d f.name).isSome
+  | .inline f parent => parent.isSome ∧ (Spec.inlineType s parent f.typeCond).isSome
+  | .directive dir _ => (s.directive? dir.name).isSome
+  | .varDef v => (s.type? v.type.name).isSome
+  | .fragDef f => (s.type? f.typeCond).isSome
+  | .value _ o => o.typed = true → o.exp.isSome ∧ o.dfn.isSome
+
+/-- what the rules a valid document passes say, as far as links are concerned -/
+structure LinkRules (s : Schema) (d : QueryDoc) : Prop where
+  knownRootType : Spec.knownRootType s d = true
+  fieldSelections : Spec.fieldSelections s d = true
+  typeConditions : Spec.fragmentSpreadTypeExistence s d = true
+  variableTypes : Spec.variableTypesExist s d = true
+  spreads : Spec.fragmentSpreadTargetDefined d = true
+  directives : Spec.directivesAreDefined s d = true
+  argumentNames : Spec.argumentNames s d = true
+
+section
+variable (s : Schema) (d : QueryDoc) (hs : Gql.Spec.Closed s) (hString : (s.type? (str "String")).isSome)
+  (hr : LinkRules s d)
+include hs hString hr
+
+theorem argDemands_present (cands : Name → List String) (site : Spec.ArgSite) (hsite : site ∈ Spec.argSites s d) :
+    ∀ dm ∈ argDemands s cands site.defs site.args, dm.Present s d := by
+  have hpar := parents_present s d hs.fieldTypes hString hr.knownRootType hr.fieldSelections hr.typeConditions
+  have hsites := argSites_present s d hs hpar hr.fieldSelections hr.directives hr.argumentNames
+  intro dm hdm
+  simp only [argDemands, List.mem_map] at hdm
+  obtain ⟨o, ho, rfl⟩ := hdm
+  exact specValOcc_present s d hs.fieldTypes hsites hr.variableTypes o (Or.inl ⟨site, hsite, ho⟩)
+
+theorem dirDemands_present (cands : Name → List String) (loc : Bytes) (ds : List Directive)
+    (hsite : (loc, ds) ∈ Spec.directiveSites s d) : ∀ dm ∈ dirDemands s cands loc ds, dm.Present s d := by
+  intro dm hdm
+  simp only [dirDemands, List.mem_flatMap, List.mem_cons] at hdm
+  obtain ⟨dir, hd, rfl | hdm⟩ := hdm
+  · have := hr.directives
+    unfold Spec.directivesAreDefined Spec.allDirectives at this
+    simp only [List.all_eq_true, List.mem_flatMap] at this
+    exact this dir ⟨(loc, ds), hsite, hd⟩
+  · have hsa : (⟨(s.directive? dir.name).map (·.args), dir.args⟩ : Spec.ArgSite) ∈ Spec.argSites s d := by
+      simp only [Spec.argSites, List.mem_append, Spec.directiveArgSites, Spec.allDirectives, List.mem_map,
+        List.mem_flatMap]
+      exact Or.inr ⟨dir, ⟨(loc, ds), hsite, hd⟩, rfl⟩
+    exact argDemands_present s d hs hString hr cands _ hsa dm hdm
+
+theorem nodeDemands_present (cands : Name → List String) (t : Spec.TSel) (ht : t ∈ Spec.docSels s d) :
+    ∀ dm ∈ nodeDemands s cands t, dm.Present s d := by
+  have hpar := parents_present s d hs.fieldTypes hString hr.knownRootType hr.fieldSelections hr.typeConditions
+  have hok := nodeOK_of_rules s d hr.fieldSelections hr.typeConditions
+  have hdirs : (Spec.selLoc t.sel, Spec.selDirs t.sel) ∈ Spec.directiveSites s d := by
+    simp only [Spec.directiveSites, List.mem_append, List.mem_map]
+    exact Or.inr ⟨t, ht, rfl⟩
+  obtain ⟨q, hq, _⟩ := hpar t ht
+  have hokt := hok t ht
+  intro dm hdm
+  obtain ⟨par, sel⟩ := t
+  simp only at hq
+  subst hq
+  cases sel with
+  | field al nm args dirs sub p =>
+    simp only [nodeDemands, List.mem_cons, List.mem_append] at hdm
+    rcases hdm with rfl | hdm | hdm
+    · exact ⟨rfl, hokt⟩
+    · have hsa : (⟨((some q).bind (Spec.fieldDefOn · nm)).map (·.args), args⟩ : Spec.ArgSite) ∈ Spec.argSites s d := by
+        simp only [Spec.argSites, List.mem_append, Spec.fieldArgSites, List.mem_filterMap]
+        exact Or.inl ⟨_, ht, rfl⟩
+      exact argDemands_present s d hs hString hr cands _ hsa dm hdm
+    · exact dirDemands_present s d hs hString hr cands _ _ hdirs dm hdm
+  | spread nm dirs p =>
+    simp only [nodeDemands, List.mem_cons] at hdm
+    rcases hdm with rfl | hdm
+    · have := hr.spreads
+      unfold Spec.fragmentSpreadTargetDefined at this
+      simp only [List.all_eq_true] at this
+      apply this nm
+      have hmem := (docSels_iff s d _).1 ⟨_, ht⟩
+      have key : ∀ xs : Selections, InSels xs (.sel (.spread nm dirs p)) → nm ∈ Spec.spreadsOfSels xs :=
+        fun xs hx => inSels_spread_mem xs nm dirs p hx
+      simp only [Spec.allSpreadNames, List.mem_append, List.mem_flatMap]
+      rcases hmem with ⟨op, hop, hx⟩ | ⟨f, hf, hx⟩
+      · exact Or.inl ⟨op, hop, key _ hx⟩
+      · exact Or.inr ⟨f, hf, key _ hx⟩
+    · exact dirDemands_present s d hs hString hr cands _ _ hdirs dm hdm
+  | inline tc dirs sub p =>
+    simp only [nodeDemands, List.mem_cons] at hdm
+    rcases hdm with rfl | hdm
+    · refine ⟨rfl, ?_⟩
+      simp only [Spec.inlineType]
+      rcases hokt with h | h
+      · subst h; rfl
+      · by_cases htc : tc = []
+        · subst htc; rfl
+        · have : (tc == []) = false := by simpa using htc
+          simpa [this] using h
+    · exact dirDemands_present s d hs hString hr cands _ _ hdirs dm hdm
+
+theorem defaultDemands_present (cands : Name → List String) (op : OperationDef) (hop : op ∈ d.ops) (v : VarDef)
+    (hv : v ∈ op.vars) : ∀ dm ∈ defaultDemands s cands v, dm.Present s d := by
+  have hpar := parents_present s d hs.fieldTypes hString hr.knownRootType hr.fieldSelections hr.typeConditions
+  have hsites := argSites_present s d hs hpar hr.fieldSelections hr.directives hr.argumentNames
+  intro dm hdm
+  unfold defaultDemands at hdm
+  cases hdv : v.default with
+  | none => rw [hdv] at hdm; cases hdm
+  | some dv =>
+    rw [hdv] at hdm
+    simp only at hdm
+    cases hocc : valOccs s true (some v.type) (s.type? v.type.name) dv with
+    | nil => rw [hocc] at hdm; cases hdm
+    | cons top rest =>
+      rw [hocc] at hdm
+      simp only [List.mem_cons, List.mem_map] at hdm
+      rcases hdm with rfl | ⟨o, ho, rfl⟩
+      · exact fun h => by cases h
+      · exact specValOcc_present s d hs.fieldTypes hsites hr.variableTypes o
+          (Or.inr ⟨op, hop, v, hv, dv, hdv, by rw [hocc]; exact List.mem_cons_of_mem _ ho⟩)
+
+/-- on a closed schema, for a document that satisfies the rule predicates, every demanded link exists -/
+theorem docDemands_present : ∀ dm ∈ docDemands s d, dm.Present s d := by
+  intro dm hdm
+  simp only [docDemands, List.mem_append, List.mem_flatMap] at hdm
+  rcases hdm with ⟨op, hop, hdm⟩ | ⟨f, hf, hdm⟩
+  · simp only [opDemands, List.mem_append, List.mem_flatMap, List.mem_cons] at hdm
+    rcases hdm with (⟨v, hv, rfl | hdm | hdm⟩ | hdm) | ⟨t, ht, hdm⟩
+    · have := hr.variableTypes
+      unfold Spec.variableTypesExist at this
+      simp only [List.all_eq_true] at this
+      exact this op hop v hv
+    · exact defaultDemands_present s d hs hString hr _ op hop v hv dm hdm
+    · refine dirDemands_present s d hs hString hr _ _ _ ?_ dm hdm
+      simp only [Spec.directiveSites, List.mem_append, List.mem_flatMap, List.mem_cons, List.mem_map]
+      exact Or.inl (Or.inl ⟨op, hop, Or.inr ⟨v, hv, rfl⟩⟩)
+    · refine dirDemands_present s d hs hString hr _ _ _ ?_ dm hdm
+      simp only [Spec.directiveSites, List.mem_append, List.mem_flatMap, List.mem_cons, List.mem_map]
+      exact Or.inl (Or.inl ⟨op, hop, Or.inl rfl⟩)
+    · refine nodeDemands_present s d hs hString hr _ t ?_ dm hdm
+      simp only [Spec.docSels, List.mem_append, List.mem_flatMap]
+      exact Or.inl ⟨op, hop, ht⟩
+  · simp only [fragDemands, List.mem_cons, List.mem_append, List.mem_flatMap] at hdm
+    rcases hdm with rfl | hdm | ⟨t, ht, hdm⟩
+    · have := hr.typeConditions
+      unfold Spec.fragmentSpreadTypeExistence Spec.typeConditions at this
+      simp only [List.all_eq_true, List.mem_append, List.mem_map] at this
+      exact this f.typeCond (Or.inl ⟨f, hf, rfl⟩)
+    · refine dirDemands_present s d hs hString hr _ _ _ ?_ dm hdm
+      simp only [Spec.directiveSites, List.mem_append, List.mem_map]
+      exact Or.inl (Or.inr ⟨f, hf, rfl⟩)
+    · refine nodeDemands_present s d hs hString hr _ t ?_ dm hdm
+      simp only [Spec.docSels, List.mem_append, List.mem_flatMap]
+      exact Or.inr ⟨f, hf, ht⟩
+
+end
+
+end Gql.Validate
